@@ -187,6 +187,21 @@ def run_multi(rec, tier, seed):
                     if _expect(ci, start, end, iw, ow, 0)[0] == "keep":
                         interior.append((ci, name, start, end))
         crossing = [(0, "chr1", 0, 1), (1, "chrB", 8, 9)]
+        # exhaustive chromosome patterns: set A = every chromosome sequence of length 3, set B = every one of length 2
+        # (so that a chroms filter removes loci from the head / middle / tail of each set in every combination)
+        by = {ci: [r for r in interior if r[0] == ci] for ci in range(len(GENOME))}
+        pattern_cfgs = []
+        for pa in itertools.product(range(len(GENOME)), repeat=3):
+            for pb in itertools.product(range(len(GENOME)), repeat=2):
+                used = {ci: 0 for ci in by}
+                S = []
+                for pat in (pa, pb):
+                    row = []
+                    for ci in pat:
+                        row.append(by[ci][(used[ci] * 5 + 1) % len(by[ci])])
+                        used[ci] += 1
+                    S.append(row)
+                pattern_cfgs.append(S)
         sets_cfgs = []
         rs = interior
         sets_cfgs.append([rs[0:5]])
@@ -194,12 +209,24 @@ def run_multi(rec, tier, seed):
         sets_cfgs.append([rs[20:21], rs[3:9]])
         sets_cfgs.append([rs[5:8] + crossing + rs[30:32], rs[40:44], rs[50:51]])
         sets_cfgs.append([[], rs[7:9]])
-        for sets in sets_cfgs:
-            for form in ("df", "bedfile"):
-                for inp in ("file", "dict"):
-                    for chroms in (None, ["chr1", "c3"], ["chrB"]):
-                        for n_loci in (None, 1, 2, 4):
-                            for cnt in (None, "min", "max"):
+        def configs():
+            for sets in sets_cfgs:
+                for form in ("df", "bedfile"):
+                    for inp in ("file", "dict"):
+                        for chroms in (None, ["chr1", "c3"], ["chrB"]):
+                            for n_loci in (None, 1, 2, 4):
+                                for cnt in (None, "min", "max"):
+                                    yield sets, form, inp, chroms, n_loci, cnt
+            for sets in pattern_cfgs:
+                for chroms in (["chr1", "c3"], ["chrB"], ["c3"], ["chrB", "chr1"]):
+                    for n_loci in (None, 2):
+                        yield sets, "df", "dict", chroms, n_loci, None
+        for sets, form, inp, chroms, n_loci, cnt in configs():
+            if True:
+                if True:
+                    if True:
+                        if True:
+                            if True:
                                 dfs = [pandas.DataFrame(dict(chrom=[r[1] for r in S], start=[r[2] for r in S], end=[r[3] for r in S]),
                                                         columns=["chrom", "start", "end"]).astype(dict(chrom=str, start="int64", end="int64"))
                                        for S in sets]
